@@ -191,7 +191,7 @@ def run(ctx: Ctx) -> None:
     for n in range(2, nmax + 1):
         pools[n] = []
         for i in range(4 if n <= 5 else 2):
-            ph = Q.gen_phys(rng, n, slm=(i % 2 == 1), given=False)
+            ph = Q.gen_phys(rng, n, slm=(i % 2 == 1), given=False, local2=(i % 4 >= 2))
             ph["id"] = f"n{n}-{'slm' if i % 2 else 'plain'}-{i}"
             pools[n].append(ph)
     cases = []
